@@ -318,12 +318,23 @@ func fileDestination(target, dep *BuildTarget, out string, dir, outPrefix, test 
 	return handleDir(dep.Label.PackageName, out, dir)
 }
 
-// Encloses the given string in quotes if needed.
+// Encloses the given string in quotes if needed, so that it is a single shell word.
 func quote(s string) string {
-	if strings.ContainsAny(s, "|&;()<>") {
+	if strings.ContainsAny(s, "\"$`\\") {
+		// These remain special inside double quotes, so single quotes are needed.
+		return "'" + strings.ReplaceAll(s, "'", `'\''`) + "'"
+	} else if strings.ContainsAny(s, "|&;()<>' \t\n") {
 		return "\"" + s + "\""
 	}
 	return s
+}
+
+// Unquote removes the quotes that a replacement of a single path has been enclosed in, if any.
+func Unquote(s string) string {
+	if len(s) >= 2 && strings.HasPrefix(s, "'") && strings.HasSuffix(s, "'") {
+		return strings.ReplaceAll(s[1:len(s)-1], `'\''`, "'")
+	}
+	return strings.Trim(s, "\"")
 }
 
 // handleDir chooses either the out dir or the actual output location depending on the 'dir' flag.
